@@ -25,7 +25,7 @@ T = "MetadorModel.C01."
 THEOREMS = []  # filled in below (kept in one place with Props/C01.lean)
 LEAN = dict(
     modules=["MetadorModel.Props.C01"],
-    theorems=[],
+    theorems=[T + n for n in ["view_newPatch", "view_snoc", "view_fold"]],
     drivers=["drv_ov"],
 )
 
